@@ -1,6 +1,7 @@
 """C05 — RRset signed data equals the RFC 4034/4035 canonical form: encoder configured canonical before the first emit,
 RR(i) field sequence and provenance, determine_name, canonical-case table, canonical sort key, duplicates removed, one TBS."""
 import re
+import helpers
 from api import shorten, cone
 
 EXPLANATION = (
@@ -234,3 +235,6 @@ def check_policy_table(cx, rule, compress_only=False):
     for g in si:
         uses = cx.calls(g, r'Name::num_labels$')
         cx.check('C05.S3', len(uses) >= 1, g.path, 'calls', 'signer-labels-field-from-num_labels', str(len(uses)))
+
+    # ---------------------------------------------------------------- H helper semantics the guards above rely on (rules/helpers.py)
+    helpers.check(cx, 'C05.H', ['Name::trim_to', 'Name::is_root', 'Name::is_wildcard'])
